@@ -420,7 +420,18 @@ impl<'a> EbpfVmMbuff<'a> {
     /// vm.register_helper(6, helpers::bpf_trace_printf).unwrap();
     /// ```
     pub fn register_helper(&mut self, key: u32, function: Helper) -> Result<(), Error> {
-        self.helpers.insert(key, function);
+        if self.helpers.insert(key, function).is_some() {
+            // Compiled code calls the function that was registered under this key when it was
+            // built: it must not run in place of the new one. The program has to be compiled again.
+            #[cfg(not(windows))]
+            {
+                self.jit = None;
+            }
+            #[cfg(feature = "cranelift")]
+            {
+                self.cranelift_prog = None;
+            }
+        }
         Ok(())
     }
 
